@@ -6,6 +6,7 @@ import LoraVerif.Lemmas.MacWFStep
 import LoraVerif.Lemmas.Accept
 import LoraVerif.Lemmas.RefineNb
 import LoraVerif.Lemmas.HistoryCSafe
+import LoraVerif.Lemmas.DelayInv
 /-!
 # C04 — no received frame or network command can panic or hang the device
 
@@ -377,6 +378,40 @@ theorem async_no_panic {σ} (g : Rng σ) (cfg : DevCfg) (r : RegionId) (maxPower
     site = "rx start delay overflow" ∨ site = "rx start delay underflow" :=
   async_no_panic_from g cfg _ rs ops (init_wf r maxPower gain hg) (by cases r <;> exact hv) site hp
 
+/-- the front-end's only remaining failure when the board's timing constants are sane: the model's
+bound on the frames heard in one `between_windows` (a hang value, not a panic) -/
+def OnlyHang : Fault → Prop
+  | .hang s => s = "between_windows"
+  | .panic _ => False
+
+/-- **no session of the async front-end panics at all, whatever the radio answers**, when the board's
+timing constants are sane (`TimingOk`: lead ≤ 1 s + time on air, 16 s + time on air fits a `u32`): from
+any well-formed state whose RX1 delay is between 1 s and 15 s — an invariant of every step
+(`stepC_delayOk`; the initial state has 1 s) — the `u32` arithmetic of the window timers cannot fail
+either, because the delays it reads are the ones in force when the frame was built (`winC_none_cfg`). -/
+theorem async_no_panic_timing_from {σ} (g : Rng σ) (cfg : DevCfg) (hT : TimingOk cfg) (d : DevRun) (rs : σ)
+    (ops : List AsyncOp) (h : MacWF d.m) (hd : DelayOk d.m) (hv : ∀ op ∈ ops, op.valid d.m.region.id = true) (site : String) :
+    asyncOps g cfg d rs ops ≠ .error (.panic site) := by
+  intro hp
+  have hsim := asyncOps_simX (X := OnlyHang) rfl g cfg DelayOk
+    (fun m s ev ms' oc hI hs => stepC_delayOk g m s ev ms' oc hI hs)
+    (fun m join second e hI he => by
+      obtain ⟨h1, h2⟩ := macRxDelay_range m hI join second
+      exact (startDelay_timingOk cfg hT _ h1 h2 e he).elim)
+    d rs ops hd
+  rcases hsim.elim_error hp with hx | hx
+  · exact hx
+  · refine (runC_safe g d.m rs (ops.map (abstractOp cfg)) h ?_).no_panic site hx
+    intro ev hev
+    obtain ⟨op, hop, rfl⟩ := List.mem_map.mp hev
+    exact abstractOp_valid cfg _ op (hv op hop)
+
+/-- … in particular from the initial state of every region -/
+theorem async_no_panic_timing {σ} (g : Rng σ) (cfg : DevCfg) (hT : TimingOk cfg) (r : RegionId) (maxPower : Nat) (gain : Int)
+    (rs : σ) (ops : List AsyncOp) (hg : gainOk r gain = true) (hv : ∀ op ∈ ops, op.valid r = true) (site : String) :
+    asyncOps g cfg (asyncStart (MacState.init (RegionState.init r) maxPower gain)) rs ops ≠ .error (.panic site) :=
+  async_no_panic_timing_from g cfg hT _ rs ops (init_wf r maxPower gain hg) (init_delayOk _ _ _) (by cases r <;> exact hv) site
+
 /-- every state a session reaches is well-formed again (so the next call cannot panic either) -/
 theorem async_wf {σ} (g : Rng σ) (cfg : DevCfg) (d d' : DevRun) (rs rs' : σ) (ops : List AsyncOp) (obs : List OpObs)
     (h : MacWF d.m) (hv : ∀ op ∈ ops, op.valid d.m.region.id = true)
@@ -445,6 +480,7 @@ def demoOps : List AsyncOp :=
 def demoCfg : DevCfg := { lead := 15, buffer := 40, classC := true, txMs := 57 }
 
 example : ∀ op ∈ demoOps, op.valid .EU868 = true := by decide +kernel
+example : TimingOk demoCfg := by unfold TimingOk demoCfg; decide
 example : (asyncOps lcg demoCfg (asyncStart (MacState.init (RegionState.init .EU868) 14 2)) 1 demoOps).toOption.map
     (fun r => (r.1.map (fun ob => ob.res), r.2.1.downlinks)) =
     some ([some (.ok .joinSuccess), some (.ok (.downlinkReceived 7)), some .errRadio, none, some (.ok .rxComplete)],
@@ -494,4 +530,6 @@ end C04
 #print axioms C04.async_no_panic_from
 #print axioms C04.async_no_panic
 #print axioms C04.async_wf
+#print axioms C04.async_no_panic_timing_from
+#print axioms C04.async_no_panic_timing
 #print axioms C04.nb_no_panic
